@@ -5,7 +5,7 @@
    model's parser is run (vm_compute) on the same synthesised files as amoco. *)
 From Coq Require Import ZArith List Bool Lia.
 Import ListNotations.
-Require Import Amoco.C14.Model Amoco.C14.Proofs.
+Require Import Amoco.C14.Model Amoco.C14.Proofs Amoco.C14.Containers Amoco.C14.ContainersProofs.
 Open Scope Z_scope.
 
 (* Any record of fixed-width unsigned fields, little or big endian, followed by anything: decoding returns the fields. *)
@@ -142,6 +142,40 @@ Proof. exact srec_bad_checksum_rejected. Qed.
 Print Assumptions C14_srec_bad_checksum_rejected.
 
 (* Non-vacuity: a big-endian 64-bit image with one program header; a HEX and an S-record line. *)
+(* Fat (universal) Mach-O: the architecture table of any length is read back as encoded, and an architecture is the thin
+   image stored at its offset. *)
+Theorem C14_fat_macho_table : forall f archs,
+  Z.of_nat (length archs) < 256 ^ 4 ->
+  holds f 0 (enc true 4 FAT_MAGIC ++ enc true 4 (Z.of_nat (length archs))) ->
+  (forall i, (i < length archs)%nat -> Forall2 fits fat_ws (nth i archs []) /\
+             holds f (8 + Z.of_nat i * 20) (enc_fields true fat_ws (nth i archs []))) ->
+  parse_fat f = Some archs.
+Proof. exact parse_fat_correct. Qed.
+Print Assumptions C14_fat_macho_table.
+
+Theorem C14_fat_macho_slice : forall f c s off al thin,
+  0 <= off -> holds f off thin -> fat_slice f [c; s; off; Z.of_nat (length thin); al] = thin.
+Proof. exact fat_slice_correct. Qed.
+Print Assumptions C14_fat_macho_slice.
+
+(* PE: the section table (any number of sections) is found SizeOfOptionalHeader bytes after the optional header starts,
+   wherever e_lfanew points and whatever padding follows the data directories. *)
+Theorem C14_pe_section_table : forall f lfanew coff secs,
+  0 <= lfanew < 256 ^ 4 ->
+  holds f 60 (enc false 4 lfanew) ->
+  Forall2 fits coff_ws coff -> holds f lfanew (enc_fields false coff_ws coff) ->
+  fld 2 coff = Z.of_nat (length secs) ->
+  (forall i, (i < length secs)%nat -> Forall2 fits sec_ws (nth i secs []) /\
+             holds f (lfanew + 24 + fld 6 coff + Z.of_nat i * 40) (enc_fields false sec_ws (nth i secs []))) ->
+  pe_sections f = secs.
+Proof. exact pe_sections_correct. Qed.
+Print Assumptions C14_pe_section_table.
+
+Example C14_containers_nonvacuous :
+  let f := enc true 4 FAT_MAGIC ++ enc true 4 1 ++ enc_fields true fat_ws [7; 3; 28; 4; 12] ++ [254; 237; 250; 207] in
+  parse_fat f = Some [[7; 3; 28; 4; 12]] /\ fat_slice f [7; 3; 28; 4; 12] = [254; 237; 250; 207].
+Proof. vm_compute. split; reflexivity. Qed.
+
 Example C14_nonvacuous :
   let eh := [2; 62; 1; 4198400; 64; 0; 0; 64; 56; 1; 64; 0; 0] in
   let ph := [1; 0; 4194304; 4194304; 120; 120; 5; 4096] in
